@@ -782,6 +782,7 @@ type c32Run struct {
 	seed    int64
 	stats   *c32Stats
 	nviol   int
+	bySig   map[string]int
 	runs    int64
 	events  int64
 	samples int
@@ -790,12 +791,28 @@ type c32Run struct {
 func (r *c32Run) report(w *c32World) {
 	for _, p := range w.problems {
 		r.nviol++
+		if r.bySig == nil {
+			r.bySig = map[string]int{}
+		}
+		r.bySig[p.sig]++
 		r.c.Violation(p.sig, map[string]any{"config": w.cfg.String(), "history": fmt.Sprint(w.hist), "what": p.detail})
 	}
 	w.problems = nil
 }
 
-func (r *c32Run) stop() bool { return r.nviol > 50 || r.c.OutOfTime() }
+// stop: out of time, or a flood of violations (a broken build produces millions). The leftover-timer finding does not
+// stop the search: every occurrence only ends its own branch.
+func (r *c32Run) stop() bool {
+	if r.c.OutOfTime() || len(r.bySig) > 8 {
+		return true
+	}
+	for sig, n := range r.bySig {
+		if sig != c32SigStale && n > 50 {
+			return true
+		}
+	}
+	return false
+}
 
 func c32Menu(w *c32World, halfSteps []int, maxQ, maxLh1 int) []c32Ev {
 	if w.model.done || w.dead {
@@ -1109,6 +1126,9 @@ func TestVerifC32(t *testing.T) {
 	}
 	for _, R := range []int{1, 2, 3} {
 		for _, disc := range []string{"static", "lh"} {
+			if quick && disc == "lh" && R != 2 {
+				continue // quick tier: the lighthouse-learned peer is searched for retries=2 only (all three in thorough)
+			}
 			for _, iv := range mc.Pick(c, []vtime.Duration{100 * vtime.Millisecond}, []vtime.Duration{100 * vtime.Millisecond, 250 * vtime.Millisecond}) {
 				items = append(items, c32Item{Kind: "bfs", Cfg: c32Cfg{R: R, I: iv, Disc: disc, FW: "p80", N0: 4}})
 			}
